@@ -717,6 +717,17 @@ def gen_related_group(rng, kind):
             p["variant"] = None
         if kind == "netlist-long":
             p, base = gen_long_text_probe(rng), F(1)
+        if pk == "die" and "refine" not in p["op"] and rng.random() < 0.5:
+            W_, H_, bx_, fx_, _ = rel.die_parts(dict(p, fixed=p.get("fixed")))
+            if rel.refine_safe(W_, H_, [b[:4] for b in bx_] + fx_):
+                p["op"]["refine"] = [rng.choice([1.5, 2.0, 3.0]), rng.choice([1, 4, 9, 16])]
+        if pk == "alloc":
+            # the probed run exercises every operation of the class at least once
+            have = {o[0] for o in p["op"]["ops"]}
+            if "refine" not in have:
+                p["op"]["ops"].append(["refine", rng.choice([0.25, 0.5, 0.9375]), rng.choice([1, 2])])
+            if "griddify" not in have and "uniform" not in have and len(p["op"]["ops"]) < 3:
+                p["op"]["ops"].insert(rng.randrange(len(p["op"]["ops"]) + 1), [rng.choice(["griddify", "uniform"])])
         lead = strip(p)
         fam = [strip(m) for m in rel.relatives(rng, lead)]
         selfs = [m for m in fam if m["note"] == "rel:self"]
